@@ -498,7 +498,16 @@ func ruleMapRange(c *Ctx) []Obligation {
 				for _, in := range b.Instrs {
 					switch x := in.(type) {
 					case *ssa.MapUpdate:
-						if stripConv(x.Key) != ml.key {
+						// the same constant stored under whatever key: iterations that collide store the
+						// same thing, so the order does not matter (a set of names)
+						idem := false
+						if _, isC := x.Value.(*ssa.Const); isC {
+							idem = true
+						}
+						if st, ok := x.Value.Type().Underlying().(*types.Struct); ok && st.NumFields() == 0 {
+							idem = true
+						}
+						if stripConv(x.Key) != ml.key && !idem {
 							report(x.Pos(), "map update with a key that is not the range key", "two iterations may collide on key %s; which one survives depends on iteration order", a.Desc(x.Key))
 						}
 					case *ssa.Store:
